@@ -81,11 +81,20 @@ def tf_pipeline_problems():
     with common.scratch_dir("vt19t_") as tmp:
         d, table, written = iterscen.build(tmp, "short-last")
         d.dataset_structure.shard_file_type = "tfrec"
-        for shuffle in (0, 3):
+        for shuffle, batch_size in ((0, 0), (3, 0), (0, 3), (3, 3)):
             rec = iterlab.RecTF()
             with iterlab.patched(DI, tf=rec, get_from_tfrecord=lambda desc: ("decode", len(desc))):
-                ds = d.as_tfdataset("train", shuffle=shuffle, batch_size=0)  # repeat defaults to True
+                ds = d.as_tfdataset("train", shuffle=shuffle, batch_size=batch_size)  # repeat defaults to True
             names = ds.names()
+            # nothing that can DROP elements may sit between the source and repeat(): a remainder dropped in every
+            # epoch never appears in the stream
+            if "repeat" in names:
+                for name, a, k in ds.ops[:names.index("repeat")]:
+                    if name == "batch" and (k.get("drop_remainder") or (len(a) > 1 and a[1])):
+                        problems.append(f"tfrec pipeline (shuffle={shuffle}, batch_size={batch_size}): batch(drop_remainder=True) is applied "
+                                        f"before repeat(): the last n % batch_size examples of the split never appear")
+                    if name in ("take", "skip", "filter", "shard"):
+                        problems.append(f"tfrec pipeline: {name}() before repeat() removes examples from every epoch")
             if "repeat" not in names:
                 problems.append(f"tfrec pipeline (shuffle={shuffle}) has no repeat() although repetition is the default")
             elif "interleave" in names and names.index("repeat") > names.index("interleave"):
